@@ -506,7 +506,7 @@ func c04early(c *an.Ctx) {
 		}
 		for _, ci := range an.CallsIn(fn, func(ci ssa.CallInstruction) bool {
 			f := an.StaticCallee(ci)
-			return f != nil && f.Name() == "PeekAndShift"
+			return f != nil && an.BaseName(f) == "PeekAndShift"
 		}) {
 			c.Check(isParam(arg(ci, 0), fn, 1), fn, "scan compares against its time argument", ci.Pos(), "", "PeekAndShift is not given the scan's time argument unchanged (e.g. now+interval would fire early)")
 		}
@@ -560,7 +560,7 @@ func c04early(c *an.Ctx) {
 				return
 			}
 			fa, ok := st.Addr.(*ssa.FieldAddr)
-			if !ok || an.FieldOf(fa).Name() != "Priority" {
+			if !ok || an.FName(an.FieldOf(fa)) != "Priority" {
 				return
 			}
 			if tv, ok := unixNanoOf(st.Val); ok {
